@@ -39,3 +39,12 @@ func (sh *shared) identical(a, b types.Type) bool {
 	identCache.Store(k, r)
 	return r
 }
+
+// boundsTerm is the condition "index t is below n" (unsigned; a negative signed index is huge).
+// When n exceeds what t's width can hold the index is always in range.
+func (i *interpreter) boundsTerm(t *Term, n int) *Term {
+	if t.w < 64 && uint64(n) > mask(t.w) {
+		return i.tb.tt
+	}
+	return i.tb.Cmp(opUlt, t, i.tb.Const(t.w, uint64(n)))
+}
